@@ -224,7 +224,34 @@ class FiringVerdict:
         self.status, self.kind, self.detail, self.points, self.identity = status, kind, detail, points, identity
 
 
-def check_firing(f, rng=None, max_points=48):
+def eval_cost(ir, cap=10 ** 9):
+    """deterministic estimate of the reference evaluator's work for one point: nodes, each weighted by the sizes of the reductions
+    enclosing it (the lifted IR is a tree: shared sub-terms are counted once per occurrence, as they are evaluated)"""
+    def walk(x):
+        if not isinstance(x, tuple):
+            return 0
+        if x and isinstance(x[0], str):
+            tag = x[0]
+            if tag == "ten":
+                return 1
+            c = 1 + sum(walk(y) for y in x[1:])
+            mult = 1
+            if tag == "red" and len(x) > 3:
+                for _n, d in x[3]:
+                    mult *= int(d[0]) if d[0] != "real" else 1
+            elif tag == "contr" and len(x) > 3:
+                for _n, d in x[3]:
+                    mult *= int(d[0]) if d[0] != "real" else 1
+            return min(cap, c * mult)
+        return min(cap, sum(walk(y) for y in x))
+
+    try:
+        return walk(ir)
+    except Exception:
+        return 0
+
+
+def check_firing(f, rng=None, max_points=48, max_cost=None):
     if f.result is None:
         return FiringVerdict("none")
     try:
@@ -256,6 +283,8 @@ def check_firing(f, rng=None, max_points=48):
         ri, ro = typecheck(rhs)
     except (IllTyped, Unsupported) as e:
         return FiringVerdict("undecided", "typecheck", str(e))
+    if max_cost is not None and eval_cost(lhs) + eval_cost(rhs) > max_cost:
+        return FiringVerdict("undecided", "too-costly", "reference evaluation of this firing exceeds the localiser's budget")
     ident = False
     try:
         ident = digest(lhs) == digest(rhs)
